@@ -95,6 +95,35 @@ pub fn generate(rng: &mut Rng, thorough: bool) -> Vec<String> {
             }
         }
     }
+    // (4) until / since with a smallest unit: every mode in both directions (since() applies the mode as if negated),
+    // differences on, next to and between ties - PlainTime, Instant, PlainDateTime
+    let grid: [(&str, i128, i128); 9] = [
+        ("minute", 15, 60_000_000_000), ("minute", 1, 60_000_000_000), ("hour", 1, 3_600_000_000_000), ("hour", 2, 3_600_000_000_000),
+        ("second", 30, 1_000_000_000), ("second", 1, 1_000_000_000), ("millisecond", 500, 1_000_000), ("microsecond", 8, 1_000),
+        ("nanosecond", 5, 1),
+    ];
+    let m4 = if thorough { 12 } else { 3 };
+    for (u, inc, unit_ns) in grid {
+        let step = inc * unit_ns;
+        for m in MODES {
+            for _ in 0..m4 {
+                // a difference of k steps plus: nothing, half a step, just under / over half, anything
+                let k = rng.range(0, (6 * 3_600_000_000_000 / step).max(1));
+                let frac = match rng.below(5) { 0 => 0, 1 => step / 2, 2 => step / 2 - 1, 3 => step / 2 + 1, _ => rng.range(0, step) };
+                let d = (k * step + frac).min(86_399_999_999_999);
+                let t1 = rng.range(0, 86_399_999_999_999 - d);
+                let (a, b) = if rng.chance(1, 2) { (t1, t1 + d) } else { (t1 + d, t1) };
+                let f = |x: i128| { let (h, mi, s, ms, us, ns) = split_ns(x); format!("{h} {mi} {s} {ms} {us} {ns}") };
+                for op in ["until", "since"] {
+                    v.push(format!("pt_{op} {} {} - {u} {inc} {m}", f(a), f(b)));
+                    let base = rng.range(-4_000_000_000, 4_000_000_000) * 1_000_000_000;
+                    v.push(format!("in_{op} {} {} - {u} {inc} {m}", base + a, base + b));
+                    let (y, mo, dd) = (rng.range(1900, 2100), rng.range(1, 12), rng.range(1, 28));
+                    v.push(format!("pdt_{op} {y} {mo} {dd} {} {y} {mo} {dd} {} - {u} {inc} {m}", f(a), f(b)));
+                }
+            }
+        }
+    }
     v
 }
 
